@@ -413,7 +413,7 @@ class GenSCC(F.Gen):
         inner = []
         for _ in range(rng.choice([1, 1, 2])):
             r = rng.random()
-            if r < 0.15 and ks['inv']:
+            if r < 0.15 and ks['inv'] and not getattr(self, 'in_fuse', False):
                 # loop-variant (in jk) scalar defined outside the horizontal loop: idempotent assignment
                 c = rng.choice(list(ks['inv']))
                 inner.append(assign(V(c), op('prod', call('real', V(nm['jk'])), rng.choice([R(1, 2), R(1, 4)]))))
@@ -548,11 +548,16 @@ class GenSCC(F.Gen):
         saved_opts = self.idx_options
 
         def only_jk(a, lc, for_write=False):
+            # arrays without a vertical dimension and loop-variant scalars would carry values from one vertical loop
+            # into the other: inside the group they are read-only
+            if for_write and not any(d[0] == 'v' for d in a.dims):
+                return []
             return [o for o in saved_opts(a, lc, for_write) if all(i == 'jl' or i == ('jk', 0) or (i[0] == 'fix' and not a.writable) for i in o)]
         out = []
         same = rng.random() < 0.6
         first = (1, self.klev)
         self.idx_options = only_jk
+        self.in_fuse = True
         try:
             for k in range(rng.choice([2, 2, 3])):
                 r_ = first if (same or k == 0) else (min(2, self.klev), self.klev)
@@ -560,6 +565,7 @@ class GenSCC(F.Gen):
                 out.append(self.vloop(ks, rng_fixed=r_))
         finally:
             self.idx_options = saved_opts
+            self.in_fuse = False
         return out
 
     # ------------------------------------------------------------------ kernels
@@ -934,7 +940,7 @@ def strip_contiguous_explicit_shape(text):
 
 
 _SIZE_ASSIGN = re.compile(r'^(\s*J_\w*STACK_SIZE = )(.*)$', re.M)
-_STACK_ALLOC = re.compile(r'^(\s*ALLOCATE \((\w*STACK)\()(.*), (\w+)\)\)\s*$', re.M)
+_STACK_ALLOC = re.compile(r'^(\s*ALLOCATE \(\s*(\w*STACK)\()(.*), (\w+)\s*\)\s*\)\s*$', re.M)
 
 
 def pad_stack(text):
